@@ -58,4 +58,14 @@ theorem parse_str_loop_roundtrip (sidx : Nat) (es : List Entry) :
 /-- non-vacuity: `3 - (2^e1)` on a layout whose slot 0 is the scalar -/
 example : strLoop [⟨0, 0, 3⟩, ⟨1, 1, -2⟩, ⟨1, 2, 0⟩] = [.coeff 3, .space, .sign (-1), .space, .lparen, .coeff 2, .wedge, .blade 1, .rparen] := by decide
 
+/-- **line and column of the `SyntaxError`** (`_match_line_offset`, loop as coded; tied to the source by `TieA.parser_line_offset_eq`): a match at
+column `c` (from 0; the end-of-line position `c = len` included) of the line following the lines `pre` is reported as line `|pre| + 1`, column `c + 1`,
+for any number of lines of any lengths -/
+theorem error_line_and_column (pre : List Nat) (len : Nat) (post : List Nat) (c : Nat) (hc : c ≤ len) :
+    lineOffset 1 (lineStart pre + (c : Int)) (pre ++ len :: post) = some (1 + pre.length, (c : Int) + 1) :=
+  Text.lineOffset_spec 1 pre len post c hc
+
+/-- non-vacuity: offset 9 in "ab\ncdef\nxyz" (line lengths 2, 4, 3) is line 3, column 2 -/
+example : lineOffset 1 9 [2, 4, 3] = some (3, 2) := by decide
+
 end C19
